@@ -535,9 +535,9 @@ static void run_registry(void)
 
 /* ================================================================ C16 */
 enum { O_CREATE, O_DESTROY, O_ENCODE, O_DECODE_OK, O_DECODE_FEW, O_DECODE_UNRECOVERABLE, O_DECODE_DUP, O_DECODE_BADHDR, O_DECODE_RESEALED,
-       O_RECON_OK, O_RECON_FEW, O_RECON_BADDEST, O_NEEDED, O_NEEDED_BEYOND, O_METADATA, O_VALIDATE, O_INVALID_ARG, O_BAD_CREATE, O_SIZES, O_MAX };
+       O_RECON_OK, O_RECON_FEW, O_RECON_BADDEST, O_NEEDED, O_NEEDED_BEYOND, O_METADATA, O_VALIDATE, O_INVALID_ARG, O_BAD_CREATE, O_SIZES, O_FOREIGN, O_MAX };
 static const char *op_name[] = { "create", "destroy", "encode", "decode-ok", "decode-too-few", "decode-unrecoverable", "decode-dup", "decode-bad-header", "decode-resealed",
-                                 "reconstruct-ok", "reconstruct-too-few", "reconstruct-bad-dest", "needed", "needed-beyond", "metadata", "validate", "invalid-arg", "bad-create", "sizes" };
+                                 "reconstruct-ok", "reconstruct-too-few", "reconstruct-bad-dest", "needed", "needed-beyond", "metadata", "validate", "invalid-arg", "bad-create", "sizes", "foreign-fragments" };
 
 static void rc_hist(const char *api, int rc)
 {
@@ -639,6 +639,27 @@ resealed_done: ;
             } break;
             case O_METADATA: { fragment_metadata_t md; uint8_t *f = malloc(L->s.flen); memcpy(f, L->s.frag[perm[0]], L->s.flen); if (rng_below(&r, 2)) f[rng_below(&r, 71)] ^= 0x40; int rc = liberasurecode_get_fragment_metadata((char *)f, &md); rc_hist("get_fragment_metadata", rc); free(f); } break;
             case O_VALIDATE: { for (int i = 0; i < n; i++) lst[cnt++] = (char *)L->s.frag[i]; int rc = liberasurecode_verify_stripe_metadata(L->desc, lst, cnt); rc_hist("verify_stripe_metadata", rc); is_invalid_fragment(L->desc, lst[perm[0]]); } break;
+            case O_FOREIGN: {
+                /* fragments written through ANOTHER live instance (other shape and/or backend) handed to this one: whatever it
+                 * answers, nothing may stay allocated */
+                int o2 = -1; for (int q = 1; q < NSLOT; q++) if (live[(sl + q) % NSLOT]) { o2 = (sl + q) % NSLOT; break; }
+                if (o2 < 0) break;
+                live_t *F = &S[o2]; int fn = F->s.n;
+                int keep = 1 + (int)rng_below(&r, (uint32_t)fn);
+                int fp[32]; for (int i = 0; i < fn; i++) fp[i] = i; rng_shuffle(&r, fp, fn);
+                for (int i = 0; i < keep; i++) lst[cnt++] = (char *)F->s.frag[fp[i]];
+                char *out = NULL; uint64_t ol = 0;
+                int rc = liberasurecode_decode(L->desc, lst, cnt, F->s.flen, (int)rng_below(&r, 2), &out, &ol);
+                rc_hist("decode_foreign", rc);
+                if (rc == 0) liberasurecode_decode_cleanup(L->desc, out);
+                char *o = malloc(F->s.flen ? F->s.flen : 1);
+                rc = liberasurecode_reconstruct_fragment(L->desc, lst, cnt, F->s.flen, (int)rng_below(&r, (uint32_t)n), o);
+                rc_hist("reconstruct_foreign", rc);
+                free(o);
+                liberasurecode_verify_stripe_metadata(L->desc, lst, cnt);
+                is_invalid_fragment(L->desc, lst[0]);
+                mon_count("history_foreign_fragment_steps", 1);
+            } break;
             case O_SIZES: liberasurecode_get_fragment_size(L->desc, (int)rng_below(&r, 100000)); liberasurecode_get_aligned_data_size(L->desc, rng_below(&r, 100000)); liberasurecode_get_minimum_encode_size(L->desc); break;
             case O_INVALID_ARG: {
                 int w = (int)rng_below(&r, 8); char *out = NULL; uint64_t ol = 0; char **ed = NULL, **ep = NULL; uint64_t fl;
@@ -805,6 +826,7 @@ static int oom_child_op(void *v)
     oomarg_t *a = v; live_t *L = a->L; int ex, fl = 0;
     qp_t q; q_begin(&q);
     ledger_fail_arm(a->nth); int rc = oom_do(L, a->op, &ex); long fired = ledger_fail_disarm();
+    mon_child_phase = 1;                     /* the injected call is over: from here on no fault is excusable */
     if (a->c->be == EC_BACKEND_NULL) ex = 1;
     if (fired) fl |= OOM_FIRED;
     if (rc > 0) mon_viol("C16", "oom-positive-rc", "%s returned %d when allocation #%ld failed", a->op->name, rc, a->nth);
@@ -830,7 +852,10 @@ static int oom_child_create(void *v)
     oomarg_t *a = v; const cfg_t *c = a->c; int fl = 0;
     qp_t q; q_begin(&q); int before = registry_len();
     ledger_fail_arm(a->nth); int d = lec_create(c); long fired = ledger_fail_disarm();
+    mon_child_phase = 1;
     if (fired) fl |= OOM_FIRED;
+    /* a live sibling of the same backend (shares the GF tables / plugin handle) is unaffected by whatever happened */
+    if (a->L && a->L->desc > 0) live_roundtrip(a->L, "C16", "sibling instance after a create that hit an allocation failure", 1);
     if (d > 0) {
         fl |= OOM_SUCCEEDED;
         live_t L; memset(&L, 0, sizeof L); L.c = *c; cfg_key(c, L.ck, sizeof L.ck); L.desc = d; code_init(&L.cd, c);
@@ -856,14 +881,14 @@ static void oom_account(const mon_child_t *ch, const char *what, long nth)
 {
     mon_count("evaluations", 1);
     if (ch->faulted) {
-        if (ch->nullpage && ch->sig == 11) {
+        if (ch->nullpage && ch->sig == 11 && ch->phase == 0) {
             /* NULL-page dereference of the allocation that was made to fail: an unchecked malloc, which no
              * property speaks about (not a leak, double free or use of freed memory): counted, not reported */
             char nm[128]; snprintf(nm, sizeof nm, "oom_null_deref_in_%s", ch->site);
             mon_count("oom_unchecked_alloc_null_deref", 1); mon_count(nm, 1);
         } else {
             char kind[160]; snprintf(kind, sizeof kind, "crash:signal:%d@%s", ch->sig, ch->site);
-            mon_viol("C16", kind, "%s: process faulted (signal %d, not a NULL-page access) in %s when allocation #%ld failed: wild pointer / freed memory on the error exit", what, ch->sig, ch->site, nth);
+            mon_viol("C16", kind, "%s: process faulted (signal %d, %s) in %s %s allocation #%ld was made to fail: wild pointer / freed memory / state left broken by the error exit", what, ch->sig, ch->nullpage ? "NULL page" : "not a NULL-page access", ch->site, ch->phase ? "in a LATER call, after" : "when", nth);
         }
         return;
     }
@@ -890,13 +915,18 @@ static void run_oom(void)
         char ck[96]; cfg_key(&c, ck, sizeof ck);
         int n = c.k + c.m, k = c.k, tol = cfg_tol(&c);
         uint64_t len = (uint64_t)k * 37 + 5;
+        /* the live instance: sibling for the create enumeration, subject of the operation enumeration.  Created by every
+         * shard and after every restart (never inside a case) */
+        live_t L;
+        if (live_open(&L, &c, len, MO.seed) != 0) { if (mon_case_all("%s|oom|setup", ck)) { mon_viol("C16", "setup-failed", "create/encode failed"); mon_end(); } continue; }
+        ledger_refresh();
         /* ---- create under allocation failure ---- */
         long Acreate = 0;
         { ledger_fail_arm(1L << 40); int d = lec_create(&c); Acreate = ledger_fail_seen(); ledger_fail_disarm(); if (d > 0) liberasurecode_instance_destroy(d); ledger_refresh(); }
         mon_count0("oom_alloc_sites_enumerated", Acreate);
         for (long nth = 1; nth <= Acreate; nth++) {
             if (!mon_case("%s|oom|create|alloc#%ld", ck, nth)) continue;
-            oomarg_t a = { NULL, NULL, nth, 0, &c, len }; mon_child_t ch;
+            oomarg_t a = { &L, NULL, nth, 0, &c, len }; mon_child_t ch;
             if (mon_fork_run(oom_child_create, &a, &ch) != 0) mon_logf("HARNESS fork failed");
             else oom_account(&ch, "create", nth);
             mon_distinct("nontrivial", mon_hash_u64((uint64_t)nth, mon_hash_str(ck, 160)));
@@ -920,10 +950,6 @@ static void run_oom(void)
         if (k >= 2) ops[no++] = (oop_t){ 1, ((1u << n) - 1) & ~(1u << (n - 1)), 0, 0, 0, "decode-too-few" };   /* only the last parity present */
         ops[no++] = (oop_t){ 3, 0, 0, 0, 0, "fragments_needed" };
         ops[no++] = (oop_t){ 4, 0, 0, 1, 0, "metadata+validation" };
-        live_t L;
-        /* the instance the children inherit; created by every shard and after every restart (never inside a case) */
-        if (live_open(&L, &c, len, MO.seed) != 0) { if (mon_case_all("%s|oom|setup", ck)) { mon_viol("C16", "setup-failed", "create/encode failed"); mon_end(); } continue; }
-        ledger_refresh();
         for (int oi = 0; oi < no; oi++) {
             int ex; long A; int rc0;
             { ledger_fail_arm(1L << 40); rc0 = oom_do(&L, &ops[oi], &ex); A = ledger_fail_seen(); ledger_fail_disarm(); }
@@ -948,7 +974,8 @@ static void run_oom(void)
 static struct ec_backend_op_stubs real_ops, stub_ops;
 static long op_calls[6];            /* encode decode reconstruct fragments_needed init exit */
 static int fail_op = -1; static long fail_at = -1; static int fired;
-static const char *opn[] = { "encode", "decode", "reconstruct", "fragments_needed", "init" };
+static const char *opn[] = { "encode", "decode", "reconstruct", "fragments_needed", "init", "isal-matrix-inversion" };
+static int *isal_failat; static long *isal_calls;     /* failpoint of the reference libisal: the n-th gf_invert_matrix reports failure */
 
 static int st_encode(void *d, char **a, char **b, int bs) { if (fail_op == 0 && ++op_calls[0] == fail_at) { fired = 1; return -1; } return real_ops.encode(d, a, b, bs); }
 static int st_decode(void *d, char **a, char **b, int *mi, int bs) { if (fail_op == 1 && ++op_calls[1] == fail_at) { fired = 1; return -1; } return real_ops.decode(d, a, b, mi, bs); }
@@ -978,6 +1005,7 @@ static int run_script(const cfg_t *c, const sstep_t *sc, int ns, const char *wha
     qp_t q0; q_begin(&q0);
     int before_reg = registry_len();
     qp_t q; q_begin(&q);
+    if (isal_failat) *isal_failat = fail_op == 5 ? (int)fail_at : 0;
     int desc = lec_create(c);
     cm->ops = orig;
     mon_count("evaluations", 1);
@@ -1004,6 +1032,7 @@ static int run_script(const cfg_t *c, const sstep_t *sc, int ns, const char *wha
             q_begin(&q);
             int rc = 0, exact = 1;
             char *lst[64]; int cnt = 0;
+            int fa0 = isal_failat ? *isal_failat : 0;
             if (sc[st].kind != 0 && !have) break;
             for (int i = 0; i < n && sc[st].kind != 0; i++) if (!((sc[st].erased >> i) & 1)) lst[cnt++] = (char *)S.frag[i];
             switch (sc[st].kind) {
@@ -1023,6 +1052,7 @@ static int run_script(const cfg_t *c, const sstep_t *sc, int ns, const char *wha
             case 3: { int R[2] = { sc[st].dest, -1 }, X[1] = { -1 }, N[40]; rc = liberasurecode_fragments_needed(desc, R, X, N); } break;
             }
             mon_count("evaluations", 1);
+            if (fail_op == 5 && isal_failat && fa0 > 0 && *isal_failat == 0) fired = 1;      /* the matrix inversion inside the ISA-L adapter failed during this call */
             if (fired) {
                 mon_count("injected_failures", 1);
                 if (rc >= 0) mon_viol("C17", "backend-failure-not-reported", "%s: backend %s failed (injected) at script step %d but the public call returned %d", what, opn[fail_op], st, rc);
@@ -1036,6 +1066,7 @@ static int run_script(const cfg_t *c, const sstep_t *sc, int ns, const char *wha
         }
     }
     (void)full;
+    if (isal_failat) *isal_failat = 0;
     int rc = liberasurecode_instance_destroy(desc);
     if (rc != 0) mon_viol("C17", "destroy-failed", "%s: destroy returned %d", what, rc);
     if (have) { for (int i = 0; i < n; i++) free(S.frag[i]); free(S.frag); }
@@ -1047,6 +1078,7 @@ static int run_script(const cfg_t *c, const sstep_t *sc, int ns, const char *wha
 static void run_faults(void)
 {
     ledger_refresh();
+    if (isal_ok) { void *h = dlopen("libisal.so.2", RTLD_NOW); isal_failat = h ? (int *)dlsym(h, "isal_ref_fail_invert_at") : NULL; isal_calls = h ? (long *)dlsym(h, "isal_ref_invert_calls") : NULL; if (!isal_calls) isal_failat = NULL; ledger_refresh(); }
     static const cfg_t pool[] = { { EC_BACKEND_LIBERASURECODE_RS_VAND, 4, 2, 2, 0, CHKSUM_CRC32 }, { EC_BACKEND_FLAT_XOR_HD, 10, 5, 3, 0, CHKSUM_NONE }, { EC_BACKEND_FLAT_XOR_HD, 6, 6, 4, 0, CHKSUM_CRC32 },
                                   { EC_BACKEND_NULL, 4, 2, 2, 0, CHKSUM_CRC32 }, { EC_BACKEND_ISA_L_RS_VAND, 4, 2, 2, 0, CHKSUM_CRC32 }, { EC_BACKEND_ISA_L_RS_CAUCHY, 5, 3, 3, 0, CHKSUM_NONE },
                                   { EC_BACKEND_LIBERASURECODE_RS_VAND, 10, 4, 4, 0, CHKSUM_NONE },
@@ -1071,15 +1103,16 @@ static void run_faults(void)
         sc[ns++] = (sstep_t){ 0, 0, 0 };
         sc[ns++] = (sstep_t){ 1, 1u, 0 };
         /* count calls of each op in a fault-free run */
-        long total[5] = {0};
+        long total[6] = {0};
         if (mon_case_all("%s|fault-free-script", ck)) {
             fail_op = -1; fail_at = -1; memset(op_calls, 0, sizeof op_calls);
             /* count with a never-firing failpoint per op */
             for (int op = 0; op < 5; op++) { fail_op = op; fail_at = 1000000; memset(op_calls, 0, sizeof op_calls); run_script(&c, sc, ns, "fault-free", 1); total[op] = op_calls[op]; }
+            if (isal_failat && (c.be == EC_BACKEND_ISA_L_RS_VAND || c.be == EC_BACKEND_ISA_L_RS_CAUCHY)) { long c0 = *isal_calls; fail_op = -1; run_script(&c, sc, ns, "fault-free", 1); total[5] = *isal_calls - c0; }
             mon_logf("NOTE %s backend-op calls per script: encode=%ld decode=%ld reconstruct=%ld needed=%ld init=%ld", ck, total[0], total[1], total[2], total[3], total[4]);
             mon_end();
         }
-        for (int op = 0; op < 5; op++) {
+        for (int op = 0; op < 6; op++) {
             for (long pos = 1; pos <= total[op]; pos++) {
                 if (!mon_case("%s|fail-%s-at-call-%ld", ck, opn[op], pos)) continue;
                 fail_op = op; fail_at = pos; fired = 0; memset(op_calls, 0, sizeof op_calls);
